@@ -2,6 +2,7 @@
 # Runs every stored seeded change against the check of the property it breaks (quick tier) and records the outcome.
 # usage: seedall.sh [tier]     -> /verif/seeded/RESULTS.tsv
 tier="${1:-quick}"
+export VERIF_EVIDENCE_DIR=/tmp/verif-scratch-evidence
 exec 9>/tmp/repo.lock; flock 9
 out=/verif/seeded/RESULTS.tsv
 printf "seed\tcheck\ttier\texit\tfirst violation key\n" > $out
